@@ -640,3 +640,18 @@ where
         }
     }
 }
+
+#[cfg(feature = "verif")]
+impl<'a, Settings, Stack, Clock, Broker, const Y: usize>
+    MqttClient<'a, Settings, Stack, Clock, Broker, Y>
+where
+    Settings: TreeKey + TreeSerialize + TreeDeserializeOwned + Clone,
+    Stack: TcpClientStack,
+    Clock: embedded_time::Clock + Clone,
+    Broker: minimq::Broker,
+{
+    /// Number of nodes the pending multipart iterator will still yield (on a copy of it).
+    pub fn verif_remaining(&self) -> usize {
+        self.pending.iter.clone().count()
+    }
+}
